@@ -237,6 +237,7 @@ fn width_class(bits: usize) -> &'static str {
         16 | 24 | 32 => "w16-32",
         40..=64 => "w40-64",
         65..=128 => "w72-128",
+        129..=512 => "w129-512",
         _ => "w>64",
     }
 }
@@ -1110,7 +1111,7 @@ fn gen_value(rng: &mut Rng, bits: usize, expression: bool, names: &[(String, usi
         let b = rng.corner_bytes(bits / 8);
         ExprSpec::c(&Val::from_be_bytes(&b))
     };
-    if !expression {
+    if !expression || bits > 512 {
         return constant(rng);
     }
     let same: Vec<&(String, usize)> = names.iter().filter(|n| n.1 == bits).collect();
@@ -1167,6 +1168,13 @@ pub fn generate(run_seed: u64, index: u64) -> Script {
     }
     if !widths.contains(&8) && rng.chance(1, 2) {
         widths.push(8);
+    }
+    // rarely: values of more than a page (1026 and 2056 bytes) so that one value spans
+    // three copy-on-write pages
+    let huge = rng.chance(1, 60);
+    if huge {
+        // 1026 bytes span three pages only from the last bytes of a page; 2056 bytes always do
+        widths.push(*rng.pick(&[8208usize, 16448]));
     }
 
     // zones
@@ -1264,7 +1272,9 @@ pub fn generate(run_seed: u64, index: u64) -> Script {
     }
     let total: u64 = weights.iter().map(|w| w.1).sum();
 
-    let len = rng.range(3, 60) as usize;
+    // runs with page-sized values are kept short (each such load is thousands of big-number
+    // operations)
+    let len = if huge { rng.range(3, 10) as usize } else { rng.range(3, 60) as usize };
     let mut actions = Vec::new();
     let mut next_id = nroots;
     let mut live: Vec<usize> = (0..nroots).collect();
